@@ -84,7 +84,7 @@ class Abort(BaseException):
 
 
 class Tracer(object):
-    def __init__(self, filename, locator, line_range=None, budget=400000):
+    def __init__(self, filename, locator, line_range=None, budget=60000):
         self.filename = filename
         self.loc = locator
         self.line_range = line_range
@@ -144,6 +144,30 @@ class Tracer(object):
         return self.local
 
 
+_WARM = [False]
+
+
+def _warm_up():
+    """CPython 3.12 enables per-opcode events (sys.monitoring) lazily: the first frame that asks for them
+    does not receive any.  Trace one throw-away call first."""
+    if _WARM[0]:
+        return
+    _WARM[0] = True
+    ns = {}
+    exec(compile('def _w(a):\n    b = a\n    return b\n', '<c08-warm-up>', 'exec'), ns)
+
+    def t(frame, event, arg):
+        frame.f_trace_opcodes = True
+        return t
+    old = sys.gettrace()
+    sys.settrace(t)
+    try:
+        ns['_w'](1)
+        ns['_w'](2)
+    finally:
+        sys.settrace(old)
+
+
 def run_traced(source, filename, tree, has_scope, entry, line_range=None):
     """Execute `source` (compiled as `filename`), then `entry(namespace)` under the tracer.
     tree = ast.parse(source) (the very tree whose nodes `has_scope` knows).
@@ -157,6 +181,7 @@ def run_traced(source, filename, tree, has_scope, entry, line_range=None):
     ns = {'__name__': '__c08__'}
     exc = None
     old = sys.gettrace()
+    _warm_up()
     sys.settrace(tr)
     try:
         try:
